@@ -39,7 +39,7 @@ impl Property for C01 {
         }
     }
     fn rule(&self) -> String {
-        "Generated histories (fork trees with arrival orders, per-block difficulties, transaction graphs over a small script pool incl. prefix-colliding bech32 address pairs, shared transactions, same-block spends, threshold changes, upgrades) on all three networks; after every operation (and, in 40% of the histories, after every paused round of a time-sliced ingestion with budgets of 1..5 operations, at every fourth pause right after an upgrade performed at that pause) every pool address is queried without filter through the real endpoint and through the page-size hook (all pages followed) and compared in both directions with a naive replay ledger as of the block the answer names as tip. A query is non-trivial when the expected set is non-empty and (the address has stable funds changed by unstable blocks, or the history has had a reorg / shared transaction / same-block spend, or a funded address whose text extends the queried one exists); distinct = distinct (tree shape, query result shape) hashes.".into()
+        "Generated histories (fork trees with arrival orders, per-block difficulties, transaction graphs over a small script pool incl. prefix-colliding bech32 address pairs, shared transactions, same-block spends, threshold changes, upgrades) on all three networks; after every operation (and, in 40% of the histories, after every paused round of a time-sliced ingestion with budgets of 1..5 operations, at every fourth pause right after an upgrade performed at that pause) every pool address is queried without filter through the real endpoint and through the page-size hook (all pages followed) and compared in both directions with a naive replay ledger as of the block the answer names as tip. A query is non-trivial when the expected set is non-empty and (the address has stable funds changed by unstable blocks, or the history has had a reorg / shared transaction / same-block spend, or a funded address whose text extends the queried one exists); distinct = distinct (tree shape, query result shape) hashes. Every second query of a segwit address is repeated in its all-upper-case bech32 spelling (BIP-173), which names the same address and must get the same answer.".into()
     }
     fn assumptions(&self) -> Vec<String> {
         vec![
@@ -68,6 +68,7 @@ impl Property for C01 {
             "q_multi_page",
             "q_while_ingestion_paused",
             "q_after_upgrade_while_ingestion_paused",
+            "q_uppercase_bech32_spelling",
         ]
     }
     fn fuzz_sequences(&self) -> Vec<(&'static str, usize)> {
@@ -141,6 +142,22 @@ impl Property for C01 {
                     }
                 };
                 let tip = compare_utxos(&mut w, a, &real, &mut out, &ctx);
+                // the same address in its other valid spelling (BIP-173: all upper case) is the
+                // same address: same answer
+                if is_bech32(a) && (i + a.len()) % 2 == 0 {
+                    let upper = a.to_uppercase();
+                    out.checks += 1;
+                    match sut::get_utxos_all_pages(case.cfg.net, &upper, &Filter::None, None) {
+                        Ok(Ok((ans, _))) => {
+                            out.class("q_uppercase_bech32_spelling");
+                            if ans.tip_hash != real.tip_hash || ans.utxos != real.utxos {
+                                out.fail(format!("{ctx}: the upper-case spelling {upper} of the same address gets {} UTXOs (tip {}), the lower-case spelling {} (tip {})", ans.utxos.len(), hex::encode(&ans.tip_hash[..4.min(ans.tip_hash.len())]), real.utxos.len(), hex::encode(&real.tip_hash[..4.min(real.tip_hash.len())])));
+                            }
+                        }
+                        Ok(Err(e)) => out.fail(format!("{ctx}: the upper-case spelling {upper} of the same address is refused: {e}")),
+                        Err(p) => out.fail(format!("{ctx}: upper-case spelling trapped: {p}")),
+                    }
+                }
                 // small page sizes for small sets; a few hundred for addresses that hold more
                 // than the real page limit
                 let limit = if real.utxos.len() > 60 { 250 + 250 * ((i + a.len()) % 3) } else { 1 + (i + a.len()) % 3 };
@@ -190,4 +207,9 @@ impl Property for C01 {
         }
         out
     }
+}
+
+/// bech32 / bech32m address text (segwit): case-insensitive by BIP-173, unlike base58.
+pub fn is_bech32(a: &str) -> bool {
+    a.starts_with("bc1") || a.starts_with("tb1") || a.starts_with("bcrt1")
 }
